@@ -12,9 +12,12 @@ import (
 	"testing"
 	"time"
 
+	"github.com/prometheus/client_golang/prometheus"
+
 	"github.com/tsenart/vegeta/v12/internal/simrt"
 	simcommon "github.com/tsenart/vegeta/v12/internal/zzsim/common"
 	vegeta "github.com/tsenart/vegeta/v12/lib"
+	prom "github.com/tsenart/vegeta/v12/lib/prom"
 )
 
 // The CLI's result pump (processAttack) fed by a real attack inside a bubble:
@@ -22,7 +25,7 @@ import (
 // controller-chosen step and byte (C09).
 
 func init() {
-	for _, p := range []string{"C02", "C09"} {
+	for _, p := range []string{"C02", "C09", "C20"} {
 		p := p
 		simScenarios["pump-"+p] = func(t *testing.T, cfg *simrt.Config) simrt.RunFn {
 			return func(tape *simrt.Tape, keep bool) simrt.Outcome { return runPump(t, p, tape, keep) }
@@ -31,13 +34,15 @@ func init() {
 }
 
 type sleepyTransport struct {
-	lat  []time.Duration
-	n    int
-	fail int // every fail-th request fails (0: never)
+	started simrt.Counter // requests that reached the transport
+	lat     []time.Duration
+	n       int
+	fail    int // every fail-th request fails (0: never)
 }
 
 func (rt *sleepyTransport) RoundTrip(req *http.Request) (*http.Response, error) {
 	seq, _ := strconv.Atoi(req.Header.Get("X-Vegeta-Seq"))
+	rt.started.Inc()
 	if req.Body != nil {
 		io.Copy(io.Discard, req.Body)
 		req.Body.Close()
@@ -111,7 +116,15 @@ func runPump(tt *testing.T, prop string, tape *simrt.Tape, keep bool) (out simrt
 		tgt := vegeta.NewStaticTargeter(vegeta.Target{Method: "GET", URL: "http://sim.test/"})
 		res := atk.Attack(tgt, vegeta.Rate{Freq: rate, Per: time.Second}, du, "pump")
 		done := make(chan error, 1)
-		go func() { done <- processAttack(atk, res, enc, sig, nil) }()
+		var pm *prom.Metrics
+		reg := prometheus.NewRegistry()
+		if prop == "C20" {
+			pm = prom.NewMetrics()
+			if err := pm.Register(reg); err != nil {
+				fail("C20.register", "%v", err)
+			}
+		}
+		go func() { done <- processAttack(atk, res, enc, sig, pm) }()
 		sent, returned := 0, false
 		var retErr error
 		firstSigStep, secondSigStep, retStep := -1, -1, -1
@@ -223,6 +236,10 @@ func runPump(tt *testing.T, prop string, tape *simrt.Tape, keep bool) (out simrt
 					}
 					seen[got[i].Seq] = true
 				}
+				if sent < 2 && int64(len(got)) != rt.started.Load() {
+					// with fewer than two signals the pump must keep writing until the channel is closed
+					fail("C02.pump-returned-early", "the pump returned after %d signal(s) with %d results on the file although %d hits had reached the transport", sent, len(got), rt.started.Load())
+				}
 				if sent < 2 {
 					// the pump ran until the channel was closed: every sequence number 0..n-1 is there
 					for i := 0; i < len(got); i++ {
@@ -237,6 +254,64 @@ func runPump(tt *testing.T, prop string, tape *simrt.Tape, keep bool) (out simrt
 				// after the second signal the pump returns; it may still drain what is already select-ready, not more
 				stats["probe.results-after-second-signal"]++
 			}
+		}
+		if viol == nil && prop == "C20" {
+			// what the exporter shows equals the sums over exactly the results the pump consumed
+			type key struct{ m, u, c string }
+			in, out, cnt, fails := map[key]float64{}, map[key]float64{}, map[key]uint64{}, map[string]float64{}
+			for i := range consumed {
+				x := &consumed[i]
+				k := key{x.Method, x.URL, strconv.Itoa(int(x.Code))}
+				in[k] += float64(x.BytesIn)
+				out[k] += float64(x.BytesOut)
+				cnt[k]++
+				if x.Error != "" {
+					fails[k.m+"|"+k.u+"|"+k.c+"|"+x.Error]++
+				}
+			}
+			mfs, gerr := reg.Gather()
+			if gerr != nil {
+				fail("C20.gather", "%v", gerr)
+			}
+			seenSeries := 0
+			for _, mf := range mfs {
+				for _, m := range mf.GetMetric() {
+					l := map[string]string{}
+					for _, lp := range m.GetLabel() {
+						l[lp.GetName()] = lp.GetValue()
+					}
+					k := key{l["method"], l["url"], l["status"]}
+					switch mf.GetName() {
+					case "request_bytes_in":
+						seenSeries++
+						if m.GetCounter().GetValue() != in[k] {
+							fail("C20.pump-bytes-in", "request_bytes_in%v = %v, the results written by the pump sum to %v", k, m.GetCounter().GetValue(), in[k])
+						}
+					case "request_bytes_out":
+						if m.GetCounter().GetValue() != out[k] {
+							fail("C20.pump-bytes-out", "request_bytes_out%v = %v, want %v", k, m.GetCounter().GetValue(), out[k])
+						}
+					case "request_seconds":
+						if m.GetHistogram().GetSampleCount() != cnt[k] {
+							fail("C20.pump-sample-count", "request_seconds%v sample count %d, %d results consumed", k, m.GetHistogram().GetSampleCount(), cnt[k])
+						}
+					case "request_fail_count":
+						fk := k.m + "|" + k.u + "|" + k.c + "|" + l["message"]
+						if m.GetCounter().GetValue() != fails[fk] {
+							fail("C20.pump-fail-count", "request_fail_count%v message=%q = %v, want %v", k, l["message"], m.GetCounter().GetValue(), fails[fk])
+						}
+						delete(fails, fk)
+					}
+				}
+			}
+			if seenSeries != len(in) {
+				fail("C20.pump-series", "%d bytes-in series exported for %d label sets", seenSeries, len(in))
+			}
+			for fk, n := range fails {
+				fail("C20.pump-fail-count", "failure counter for %q is not exported although %v consumed results carry that error", fk, n)
+				break
+			}
+			stats["probe.pump-metrics-compared"]++
 		}
 		// end the attack so that the bubble can finish
 		atk.Stop()
